@@ -11,3 +11,4 @@ INVARIANT ReadyImpliesSynced
 INVARIANT RemovedStops
 PROPERTY NoOpHarmless
 PROPERTY PinsetKept
+PROPERTY UnackedFaultyNotCommitted
